@@ -64,6 +64,13 @@ def algebra_input(ctx: Ctx, fam: str, tag="", lattice="quarter", free_rot=False,
         aux["_lat"] = L
         return [L.th * n[0], L.th * n[1], L.th * n[2]]
 
+    if fam in ("SO2", "SE2"):
+        def _fix(env, tag=tag):
+            import mpmath as mp
+            if f"th{tag}" in env:
+                env[f"s{tag}"] = mp.sin(env[f"th{tag}"])
+                env[f"c{tag}"] = mp.cos(env[f"th{tag}"])
+        ctx.probe_fix = _fix
     if fam == "SO2":
         th = Val.var(f"th{tag}")
         s, c = Val.var(f"s{tag}"), Val.var(f"c{tag}")
